@@ -50,13 +50,10 @@ fn is_bit_set(rem: u8, limit: u8, bits: &mut Vec<bool>) {
 
 pub(crate) fn bit_string_to_octet_string(bits: &[bool]) -> Result<Vec<u8>, GrammarError> {
     let mut octets = vec![];
+    // X.680 23.3: a bstring or hstring that does not fill its last octet is read as if
+    // zero bits followed; the fold below already gives the bits of a short chunk their
+    // weight counted from the most significant bit.
     for byte in bits.chunks(8) {
-        if byte.len() != 8 {
-            return Err(GrammarError::new(
-                "Binary octet string value needs to be a multiple of 8 bits!",
-                GrammarErrorType::LinkerError,
-            ));
-        }
         octets.push(byte.iter().enumerate().fold(0u8, |acc, (i, bit)| {
             acc + if *bit { 2u8.pow(7 - i as u32) } else { 0 }
         }));
